@@ -59,6 +59,9 @@
     23 /* size of buffer for long long int (64bit) -- that's enough for oct,   \
           dec and hex base systems */
 
+#define PRINT_P_DIGITS                                                         \
+    ((int)(sizeof(void *) * 2)) /* hex digits of a pointer (%p) */
+
 /**
  * Options for print_f
  */
@@ -143,6 +146,10 @@ static int print_i(void (*printchar_handler)(void *d, int c),
                                                                      : 0) -
         len - prefix_len;
     zero_count = MAX(zero_count, 0);
+    /* the precision counts digits only: a sign or 0x does not use it up (the
+       0 that # puts in front of an octal number does, it is a digit) */
+    if (len < min_len && base != 8)
+        zero_count = min_len - len;
     space_count = width - len - prefix_len - zero_count;
     space_count = MAX(space_count, 0);
 
@@ -585,8 +592,8 @@ int __printf(void (*printchar_handler)(void *d, int c),
                           (size_t)tmp.vp,
                           0,
                           width,
-                          sizeof tmp.vp * 2 + 2,
-                          ops | (OPS_FLAG_WITH_SPEC | OPS_FLAG_ZERO_PAD),
+                          PRINT_P_DIGITS,
+                          (ops | OPS_FLAG_WITH_SPEC) & ~OPS_FLAG_ZERO_PAD,
                           16);
             break;
         case 'n':
